@@ -31,6 +31,8 @@ def build(run):
     run.kani(crate_d, [lemma_d])
     crate_e, lemmas_e = positions_lemma(run)
     run.kani(crate_e, lemmas_e, timeout=600)
+    crate_f, lemma_f = position_lemma(run)
+    run.kani(crate_f, [lemma_f], timeout=300)
 
 
 # ======================================================================================================================
@@ -126,6 +128,62 @@ def restore_lemma(run):
                        role=lambda v, o: "pref-not-restored" if "left at EndPoints" in o else ("no-expression-set-panic" if "no expression has been set" in o else "panic-or-offset"),
                        covers=["successful query reachable", "failing search reachable", "no expression set reachable"],
                        claim="Ok exit => BrailleNavHighlight has the value it had before the call; no unwrap / subtraction panic under the search contract")
+
+
+# ======================================================================================================================
+# K-C20-f: get_braille_position hands back exactly the range braille_mathml computed for the navigation node (whatever the character offset)
+POS_SHIM = r"""
+pub type Result<T> = core::result::Result<T, ()>;
+pub struct Pkg;
+pub struct Cell0;
+impl Cell0 { fn borrow(&self) -> Pkg { Pkg } }
+#[derive(Clone, Copy)] pub struct Element;
+fn get_element(_p: &Pkg) -> Element { Element }
+static mut NAV: (usize, bool) = (0, true);          // character offset of the navigation position; whether the id query succeeds
+static mut RANGE: (usize, usize, usize, bool) = (0, 0, 0, true);   // start, end, cells of the braille; whether braille_mathml succeeds
+fn get_navigation_mathml_id() -> Result<(String, usize)> { if unsafe { NAV.1 } { Ok((String::from("n1"), unsafe { NAV.0 })) } else { Err(()) } }
+mod crate_braille { pub fn braille_mathml(_m: super::Element, _id: &str) -> super::Result<(String, usize, usize)> { let r = unsafe { super::RANGE }; if r.3 { Ok((String::from("b"), r.0, r.1)) } else { Err(()) } } }
+fn position_body(package_instance: &Cell0) -> Result<(usize, usize)> CLOSURE_BLOCK
+HARNESS(braille_position_is_the_highlighted_range, 4) {
+    let (start, end, cells) = (sym::usize(), sym::usize(), sym::usize());
+    sym::assume(start <= end && end <= cells && cells <= 1000);          // contract of braille_mathml (K-C20-e)
+    let offset = sym::usize();
+    sym::assume(offset <= 1000);
+    unsafe { NAV = (offset, sym::bool()); RANGE = (start, end, cells, sym::bool()); }
+    let r = position_body(&Cell0);
+    cover!(r.is_ok() && offset > 0, "navigation position with a character offset reachable");
+    cover!(r.is_err(), "failing query reachable");
+    if let Ok((s, e)) = r {
+        assert!(s <= e && e <= cells, "get_braille_position: position outside the braille string (start <= end <= length)");
+        assert!(s == start && e == end, "get_braille_position does not return the range computed for the navigation node");
+    }
+}
+"""
+
+
+def api_position(vals=None, out=None):
+    res = mcprobe([("pref", "BrailleCode Nemeth"), ("pref", "BrailleNavHighlight FirstChar"), ("mathml", "<math><mi>x</mi><mo>+</mo><mn id='n'>25</mn></math>"), ("setnav", "n 1"), "brpos", ("braille", "n")])
+    if any(r[0] != "OK" for r in res):
+        return True, {"results": res}
+    s_, e_ = [int(x) for x in res[4][1].split("\t")]
+    n = len(res[5][1])
+    return not (s_ <= e_ <= n), {"script": "Nemeth, x + <mn id='n'>25</mn>, set_navigation_node(n, 1), get_braille_position", "position": [s_, e_], "cells": n}
+
+
+def position_lemma(run):
+    itf = _sl.Source.get("src/interface.rs")
+    f = itf.find("fn get_braille_position")
+    blk = itf.find_bracketed("MATHML_INSTANCE . with ( | package_instance | {", within=f)[0]
+    block = blk.text[blk.text.index("{"):]
+    block = block[:block.rindex("}") + 1]
+    run.uses(_sl.Span(itf, blk.start, blk.end, "interface.rs::get_braille_position::closure"))
+    crate = _kr.Crate("c20pos2", POS_SHIM.replace("CLOSURE_BLOCK", block.replace("crate::braille::braille_mathml", "crate_braille::braille_mathml")))
+    run.bound("K-C20-f", "the closure body of get_braille_position verbatim; any range start <= end <= cells <= 1000 from braille_mathml, any character offset <= 1000 of the navigation position, either call may fail")
+    run.assume("K-C20-f: braille_mathml / get_navigation_mathml_id replaced by arbitrary outcomes satisfying their contracts (range inside the braille: K-C20-e)")
+    return crate, dict(id="K-C20-f.braille_position_is_highlighted_range", harness="braille_position_is_the_highlighted_range", api=lambda v, o: api_position(),
+                       role=lambda v, o: "position-outside-braille" if "outside the braille" in o else "position-not-the-range",
+                       covers=["navigation position with a character offset reachable", "failing query reachable"],
+                       claim="Ok((s, e)) => (s, e) is the range braille_mathml computed, so start <= end <= length for every character offset")
 
 
 # ======================================================================================================================
